@@ -411,6 +411,29 @@ SHAPES_MORE = [(5,), (3, 5), (5, 5), (4, 1), (2, 2, 2), (5, 3, 2), (3, 4, 5), (2
                (4, 3, 2, 5), (5, 4, 3, 5), (5, 5, 5, 5)]
 
 
+
+def warm_up(ctx):
+    """compile (or load from the shared on-disk Numba cache) every jitted kernel this check uses before the measurements;
+    the cache directory is shared with concurrently running checks, so a cache-file race (OSError) is retried here instead
+    of surfacing later as a spurious exception of the function under test"""
+    import time as _time
+    from quantecon.game_theory import Player
+    from quantecon.optimize import minmax
+
+    def tries(f):
+        for attempt in range(6):
+            try:
+                return f()
+            except OSError as e:
+                ctx.count("numba_cache_race_retried:%s" % type(e).__name__)
+                _time.sleep(0.4 * (attempt + 1))
+        return f()
+    tries(lambda: minmax(np.array([[1.0, -1.0], [-1.0, 1.0]])))
+    tries(lambda: minmax(np.array([[1, -1], [-1, 1]], dtype=np.int64)))
+    tries(lambda: Player(np.array([[1.0, 2.0], [2.0, 1.0], [0.0, 0.0]])).dominated_actions())
+    tries(lambda: Player(np.array([[1, 2], [2, 1], [0, 0]])).dominated_actions())
+
+
 def run(ctx):
     import quantecon.game_theory as gt
     from quantecon.game_theory import Player, NormalFormGame, PolymatrixGame
@@ -421,6 +444,7 @@ def run(ctx):
     _p0 = _tt.time()
     ctx.proofs()
     ctx.count("time_s:proof build (shared lock + make + Props)", int(_tt.time() - _p0))
+    warm_up(ctx)
     W = Watch(ctx)
     TOL = frac(Player([1.0, 2.0]).tol)          # default tolerance of the code, read at run time
     ctx.notes.append("Player.tol read from the implementation: %r" % float(TOL))
